@@ -759,7 +759,12 @@ SHAPE_SITES = {
 ERROR_SITES = INST_SITES
 
 NUM_CLS = ["dec", "neg", "hex", "inf", "ninf", "nan", "e999", "oor", "empty",
-           "ws", "frac", "alpha", "plus", "usc", "udig", "long", "junk"]
+           "ws", "frac", "alpha", "plus", "usc", "udig", "long", "junk",
+           # huge magnitudes: integer lexemes int() accepts (decimal: below
+           # the 4300 digit limit of int(); hex: no limit) but no float /
+           # CIM integer can hold; mantissa / exponent of many digits
+           "big", "negbig", "hexbig", "hexlong", "fracbig", "expbig",
+           "expneg"]
 
 
 def num_text(ty, cls, rng):
@@ -800,6 +805,29 @@ def num_text(ty, cls, rng):
         return rng.choice(["9" * 5000, "1" + "0" * 4400, "0" * 4500 + "1"])
     if cls == "junk":
         return rng.choice(["5 x", "5;", "1,000", "1 2", "5\u00a0"])
+    if cls in ("big", "negbig"):
+        n = rng.choice([310, 400, 1000, 4299])
+        t = rng.choice(["9" * n, "1" + "0" * (n - 1),
+                        "".join(rng.choice("123456789") for _ in range(n))])
+        if cls == "negbig":
+            return "-" + t
+        return rng.choice(["", "", "+", " "]) + t
+    if cls in ("hexbig", "hexlong"):
+        # hexbig: above every float, decimal form below 4300 digits;
+        # hexlong: decimal form above the 4300 digit limit of str(int)
+        n = rng.choice([300, 400, 3500] if cls == "hexbig" else [3600, 5000])
+        return rng.choice(["0x", "0X", "-0x", "+0x"]) + \
+            rng.choice(["f" * n, "1" + "0" * (n - 1), "7F" * (n // 2)])
+    if cls == "fracbig":
+        n = rng.choice([310, 400, 5000])
+        return rng.choice(["9" * n + ".0", "9" * n + "e0", "1" + "0" * n + ".",
+                           "-" + "9" * n + ".5", "9." + "9" * n + "e400"])
+    if cls == "expbig":
+        return rng.choice(["1e", "1E+", "-2.5e", "9E"]) + \
+            rng.choice(["400", "9" * 30, "1" + "0" * 400, "9" * 5000])
+    if cls == "expneg":
+        return rng.choice(["1e-", "1E-", "-2.5e-", "0.0001E-"]) + \
+            rng.choice(["400", "9" * 30, "1" + "0" * 400, "9" * 5000])
     raise AssertionError(cls)
 
 
@@ -2097,6 +2125,108 @@ def o_struct(ctx, d):
                         [E("IRETURNVALUE")]))
 
 
+# -- child shapes of (I)METHODRESPONSE: a PARAMVALUE of every DTD-allowed form --
+# DTD: IMETHODRESPONSE (ERROR | (IRETURNVALUE?, PARAMVALUE*)),
+#      METHODRESPONSE  (ERROR | (RETURNVALUE?, PARAMVALUE*)),
+#      PARAMVALUE (VALUE | VALUE.REFERENCE | VALUE.ARRAY | VALUE.REFARRAY |
+#                  CLASSNAME | INSTANCENAME | CLASS | INSTANCE |
+#                  VALUE.NAMEDINSTANCE)?   NAME is any CIM name.
+# site = position among the children of the response element, ty = class of
+# the NAME (the names the client code gives a meaning to, or any other),
+# cls = the child element kind.
+PV_POS = ["only", "first", "last", "forret"]
+PV_NAMES = ["IRETURNVALUE", "RETURNVALUE", "ERROR", "EndOfSequence",
+            "EnumerationContext", "QueryResultClass", "other"]
+PV_KIDS = ["none", "VALUE", "VALUE.REFERENCE", "VALUE.ARRAY", "VALUE.REFARRAY",
+           "CLASSNAME", "INSTANCENAME", "CLASS", "INSTANCE",
+           "VALUE.NAMEDINSTANCE"]
+
+
+def pv_applicable(shape, d):
+    """python twin of RespPipeline!PvApplicable"""
+    if shape == "export":
+        return False
+    if shape == "void":
+        okpos = ("only",)
+    elif shape in PULL_SHAPES or shape == "method":
+        okpos = PV_POS
+    else:
+        okpos = ("only", "first", "last")
+    if shape == "method":
+        names = ["RETURNVALUE", "ERROR", "other"]
+    else:
+        names = ["IRETURNVALUE", "ERROR", "other"]
+        if shape in PULL_SHAPES:
+            names += ["EndOfSequence", "EnumerationContext"]
+        if shape == "pull_query":
+            names += ["QueryResultClass"]
+    return d["site"] in okpos and d["ty"] in names
+
+
+def pv_child(gen, kid):
+    rng = gen.rng
+    if kid == "none":
+        return None, [None, "string", "boolean", "uint8"]
+    if kid == "VALUE":
+        return V(rng.choice(STR_POOL + ["TRUE", "FALSE", "7"])), \
+            [None, "string", "boolean", "uint8"]
+    if kid == "VALUE.ARRAY":
+        return E("VALUE.ARRAY", None,
+                 [V(rng.choice(STR_POOL)) for _ in range(rng.randint(0, 2))]), \
+            [None, "string", "uint8"]
+    if kid == "VALUE.REFERENCE":
+        return gen.value_reference(), [None, "reference", "string"]
+    if kid == "VALUE.REFARRAY":
+        return E("VALUE.REFARRAY", None,
+                 [gen.value_reference() for _ in range(rng.randint(0, 2))]), \
+            [None, "reference"]
+    if kid == "CLASSNAME":
+        return gen.classname(), [None, "reference", "string"]
+    if kid == "INSTANCENAME":
+        return gen.instancename(), [None, "reference", "string"]
+    if kid == "CLASS":
+        return gen.klass(), [None, "string", "object"]
+    if kid == "INSTANCE":
+        return gen.instance(), [None, "string", "instance"]
+    if kid == "VALUE.NAMEDINSTANCE":
+        return gen.irv_elem("VALUE.NAMEDINSTANCE"), [None, "string", "instance"]
+    raise AssertionError(kid)
+
+
+@kind("o_pv", "optype", sites=PV_POS, tys=PV_NAMES, clss=PV_KIDS)
+def o_pv(ctx, d):
+    r = ctx.resp()
+    rng = ctx.rng
+    if r.name not in ("IMETHODRESPONSE", "METHODRESPONSE"):
+        raise NotRenderable("no PARAMVALUE children in this response kind")
+    retname = "IRETURNVALUE" if r.name == "IMETHODRESPONSE" else "RETURNVALUE"
+    kid, ptypes = pv_child(ctx.gen, d["cls"])
+    a = {"NAME": ctx.gen.uniq("Pv") if d["ty"] == "other" else d["ty"]}
+    pt = rng.choice(ptypes)
+    if pt is not None:
+        a[rng.choice(["PARAMTYPE", "PARAMTYPE", "TYPE"])] = pt
+    pv = E("PARAMVALUE", a, [kid] if kid is not None else [])
+    ret = [k for k in r.elems() if k.name == retname]
+    pos = d["site"]
+    if pos == "only":
+        r.kids = [pv]
+        return
+    if pos == "forret":
+        r.kids = [pv] + [k for k in r.kids if k not in ret]
+        return
+    if not ret:
+        # first / last are relative to the return element
+        if retname == "IRETURNVALUE":
+            r.kids.insert(0, E("IRETURNVALUE"))
+        else:
+            r.kids.insert(0, E("RETURNVALUE", {"PARAMTYPE": "uint8"},
+                               [V("0")]))
+    if pos == "first":
+        r.kids.insert(0, pv)
+    else:
+        r.kids.append(pv)
+
+
 @kind("p_eos", "optype", shapes=PULL_SHAPES,
       clss=["true", "lower", "false_ctx", "false_noctx", "missing_both",
             "missing_eos", "bogus", "emptyval", "novalue", "dup", "ws",
@@ -2338,6 +2468,9 @@ def defect_ok(shape, d, has_error=False):
         return False
     if info["shapes"] is not None and shape not in info["shapes"]:
         return False
+    if d["k"] == "o_pv":
+        return (d["site"] in PV_POS and d["ty"] in PV_NAMES and
+                d["cls"] in PV_KIDS and pv_applicable(shape, d))
     if info["sites"] is not None:
         if d["site"] not in info["sites"]:
             return False
